@@ -68,6 +68,16 @@ class SQLGenerator:
         date_trunc = exp.DateTrunc(this=col, unit=exp.Literal.string(granularity))
         return date_trunc.sql(dialect=self.dialect)
 
+    def _order_by_clause(self, order_clauses: list[str]) -> str:
+        """Render ORDER BY with the NULL ordering of the single-query path.
+
+        The main query path builds ORDER BY with sqlglot, which spells out NULLS FIRST / NULLS LAST
+        where the target dialect's default differs. The hand-assembled query shapes use the same
+        rendering so that every dialect (and every query shape) orders NULL keys alike.
+        """
+        ordered = exp.select("*").order_by(*order_clauses).sql(dialect=self.dialect)
+        return ordered[ordered.index("ORDER BY") :]
+
     def _build_interval(self, num: str, unit: str) -> str:
         """Build dialect-specific INTERVAL expression.
 
@@ -1569,7 +1579,7 @@ class SQLGenerator:
                 else:
                     field_name = field
                 order_clauses.append(field_name)
-            final_query += f"\nORDER BY {', '.join(order_clauses)}"
+            final_query += "\n" + self._order_by_clause(order_clauses)
 
         # Add LIMIT and OFFSET
         if limit is not None:
@@ -2394,7 +2404,7 @@ class SQLGenerator:
             for field in order_by:
                 field_name = field.split(".", 1)[1] if "." in field else field
                 order_fields.append(field_name)
-            order_clause = f"\nORDER BY {', '.join(order_fields)}"
+            order_clause = "\n" + self._order_by_clause(order_fields)
 
         limit_clause = ""
         if limit is not None:
@@ -3099,7 +3109,7 @@ LEFT JOIN conversions ON {join_condition}{group_by}{order_clause}{limit_clause}
                 else:
                     field_alias = field
                 order_clauses.append(field_alias)
-            outer_query += f"\nORDER BY {', '.join(order_clauses)}"
+            outer_query += "\n" + self._order_by_clause(order_clauses)
 
         # Add LIMIT and OFFSET if specified
         if limit is not None:
